@@ -80,7 +80,8 @@ theorem frame_alloc_top_sound (h : List (Int × Int)) (hpos : ∀ p ∈ h, 0 < p
 
 /-- a stream on which both rewrites fire: `jmp 7; jmp 7; L7:` and a kept `jmp 3` -/
 example : runStream [.label 1, .jump 7, .jump 7, .label 7, .other (default), .jump 3, .label 5, .label 3]
-    = [.label 1, .label 7, .other (default), .jump 3, .label 5, .label 3] := by decide
+    = [.label 1, .label 7, .other (default), .jump 3, .label 5, .label 3] := by
+  rw [peephole_stream_is_peep]; decide
 
 example : LabelsDistinct [.label 1, .jump 7, .jump 7, .label 7, .other (default), .jump 3, .label 5, .label 3] := by
   decide
@@ -92,13 +93,15 @@ def countExec : Exec Nat := { run := fun _ s => (s + 1, 0) }
 def dupProg : List Item := [.label 0, .other default, .jump 0, .label 0]
 
 example : ¬ LabelsDistinct dupProg := by decide
-example : runStream dupProg = [.label 0, .other default, .label 0] := by decide
+example : runStream dupProg = [.label 0, .other default, .label 0] := by
+  rw [peephole_stream_is_peep]; decide
 example : ((trace countExec dupProg 8 ⟨0, 0⟩).1.map Prod.snd) = [1, 2, 3] := by decide
-example : ∀ n, n ≤ 8 → ((trace countExec (runStream dupProg) n ⟨0, 0⟩).1.map Prod.snd) ≠ [1, 2, 3] := by decide
+example : ∀ n, n ≤ 8 → ((trace countExec (runStream dupProg) n ⟨0, 0⟩).1.map Prod.snd) ≠ [1, 2, 3] := by
+  rw [peephole_stream_is_peep]; decide
 
 /-- an allocation history as the x86-64 back-end produces it -/
-example : (run alloc (Frame.new .top) [(4, 4), (1, 1), (8, 8), (2, 2)]).2
-    = [.ok ⟨-4, 4⟩, .ok ⟨-5, 1⟩, .ok ⟨-16, 8⟩, .ok ⟨-18, 2⟩] := by decide
+example : slots (run alloc (Frame.new .top) [(4, 4), (1, 1), (8, 8), (2, 2)]).2
+    = [⟨-4, 4⟩, ⟨-5, 1⟩, ⟨-16, 8⟩, ⟨-18, 2⟩] := by decide
 
 example : ∀ p ∈ [((4 : Int), (4 : Int)), (1, 1), (8, 8), (2, 2)], 0 < p.1 ∧ 0 < p.2 := by decide
 
